@@ -173,6 +173,32 @@ def _failing_histories(draw):
     return hist
 
 
+@st.composite
+def _target_cases_with_pending(draw):
+    """C11's targeted builds; in one stage a producer of a requested target needs a resource that
+    is not defined (so it stays pending in a non-draining build), possibly next to an invalid
+    (static) target."""
+    case = draw(target_cases())
+    stage = case["stages"][-1]
+    spec = stage["spec"]
+    outs = specgen.declared_outputs(spec)
+    files = sorted(p for p, (_n, role) in outs.items() if role == "out")
+    if files:
+        tgt = draw(st.sampled_from(files))
+        name = outs[tgt][0]
+        if name in spec["steps"]:
+            spec["steps"][name]["resources"] = {"tpu": 1}
+            targets = set(stage["build"].get("targets") or [])
+            targets.add(tgt)
+            used = sorted({q for sd in spec["steps"].values() for q in sd["inp"]
+                           if q in spec["sources"]})
+            if used and draw(st.booleans()):
+                targets.add(draw(st.sampled_from(used)))
+            stage["build"]["targets"] = sorted(targets)
+            stage["build"]["target_mode"] = "pending+invalid"
+    return case
+
+
 def subchecks(tier):
     big = tier == "thorough"
     return [
@@ -180,6 +206,8 @@ def subchecks(tier):
                  examples=160_000 if big else 3_000),
         SubCheck("targets", check_case, strategy=target_cases,
                  examples=80_000 if big else 1_500),
+        SubCheck("targets_pending", check_case, strategy=_target_cases_with_pending,
+                 examples=40_000 if big else 1_000),
     ]
 
 
